@@ -3,7 +3,7 @@
 import json, glob, os
 V='/verif'
 summary={}
-for d in sorted(glob.glob(f'{V}/seeded/r7-*')):
+for d in sorted(x for x in glob.glob(f'{V}/seeded/r7-*') if os.path.isdir(x)):
     name=os.path.basename(d); pid=name.split('-')[1]
     def load(f):
         try: return json.load(open(f'{d}/{f}'))
